@@ -57,7 +57,7 @@ def _cms_linear(pid, tier, seed, kinds, n_quick, n_thorough, exh_quick, exh_thor
         r2 = Result(pid, tier, seed)
         rng2 = rng_for(seed, pid + "/search")
         slice_cms.run_slice(r2, rng2, "thorough", {pid}, set(), 4000, core.B(240) if tier == QUICK else 900,
-                            exhaustive_len=core.B(3) if tier == QUICK else 4, label="search")
+                            exhaustive_len=3 if tier == QUICK else 4, label="search")
         res.notes.append(f"search ran {r2.evaluations} extra cases on the real code")
         return r2.oracle_failures
 
@@ -192,7 +192,7 @@ def _hh(pid, tier, seed, extra=None, assumptions=None):
     rng = rng_for(seed, pid + "/hh")
     slice_hh.run_slice(res, rng, tier, [pid], core.B(300) if tier == QUICK else 5000, core.B(28) if tier == QUICK else 400)
     if pid in ("C03", "C04"):
-        slice_hh.exhaustive_width1(res, rng, core.B(4) if tier == QUICK else 6)
+        slice_hh.exhaustive_width1(res, rng, 4 if tier == QUICK else 6)
         res.oracle_failures = [f for f in res.oracle_failures if f.get("pid", pid) == pid]
 
     def search():
@@ -258,7 +258,7 @@ def check_C05(tier, seed):
                 "compared cell by cell incl. consumed draws. Non-trivial: shared cell or ceiling hit (linear), distinct (config, counter, draw side, v) (log).")
     lean = lean_check(pid)
     rng = rng_for(seed, pid)
-    slice_cms.run_slice(res, rng, tier, {pid}, {"exact"}, core.B(200) if tier == QUICK else 4000, core.B(12) if tier == QUICK else 200, exhaustive_len=core.B(2) if tier == QUICK else 3)
+    slice_cms.run_slice(res, rng, tier, {pid}, {"exact"}, core.B(200) if tier == QUICK else 4000, core.B(12) if tier == QUICK else 200, exhaustive_len=2 if tier == QUICK else 3)
     slice_log.log_step(res, rng, tier)
     slice_log.log_history(res, rng, tier, {pid}, core.B(150) if tier == QUICK else 3000, core.B(12) if tier == QUICK else 200)
     _only(res, pid)
